@@ -5,7 +5,7 @@ import os
 from .model import AnalysisError
 from .report import VERIF
 from .callgraph import closure
-from .rules import r1_resolve, r2_none, r3_ctor
+from .rules import r1_resolve, r2_none, r3_ctor, r9_purity
 
 _anch = None
 
@@ -40,3 +40,57 @@ def c_dev(run):
 
 
 CHECKS = {'DEV': c_dev}
+
+
+STATIC_TRUST = ['CPython ast module (parser)', 'Python scoping, MRO and operator-dispatch semantics as modelled in sa/',
+                'numpy view/copy behaviour as tabulated in sa/rules/r9_purity.py']
+
+
+def c17(run):
+    import ast as _ast
+    from .callgraph import own_walk
+    prog = run.prog
+    funcs = prog.analysed_functions()
+    r9_purity.run_r9(run, funcs)
+    run.floor('R9', 400)
+    # augmented operators: every __iop__ defined in the package delegates to the binary operator
+    aug = {'__iadd__': '__add__', '__isub__': '__sub__', '__imul__': '__mul__', '__itruediv__': '__truediv__',
+           '__ipow__': '__pow__', '__imatmul__': '__matmul__'}
+    n = 0
+    for f in funcs:
+        if f.name in aug and f.cls is not None:
+            n += 1
+            body = [s for s in f.node.body if not (isinstance(s, _ast.Expr) and isinstance(s.value, _ast.Constant))]
+            ok = (len(body) == 1 and isinstance(body[0], _ast.Return) and isinstance(body[0].value, _ast.Call)
+                  and isinstance(body[0].value.func, _ast.Attribute) and body[0].value.func.attr == aug[f.name]
+                  and isinstance(body[0].value.func.value, _ast.Name) and body[0].value.func.value.id == f.params[0])
+            if ok:
+                run.holds('R9aug', f.key, 'delegation', 'augmented operator returns the result of %s: no in-place update'
+                          % aug[f.name], f=f)
+            else:
+                run.undecided('R9aug', f.key, 'delegation', 'augmented operator is not a plain delegation to %s; '
+                              'its effects are decided by R9 alone' % aug[f.name], f=f)
+    run.floor('R9aug', 7)
+    inh = []
+    for c in prog.classes.values():
+        if prog.UserList in c.mro:
+            for nm in ('__iadd__', '__imul__'):
+                k, mem = prog.lookup_member(c, nm)
+                if k is prog.UserList or (k is not None and not hasattr(k, 'module')) or (k is not None and getattr(k, 'name', '') == 'MutableSequence'):
+                    inh.append('%s.%s' % (c.name, nm))
+    run.extra['inherited_inplace_list_operators'] = sorted(inh)
+    run.explanation = ('Whole-package effect analysis (rule R9): a may-alias forward dataflow over every function and '
+                       'method of spatialmath (except animate.py/timing.py) with function summaries computed to a '
+                       'fixpoint decides that no subscript/attribute store, augmented assignment, mutating method '
+                       'call, numpy in-place call or out= argument can reach storage that may alias a parameter, the '
+                       'receiver of a non-mutating method or a module-level object; random/time sources occur only in '
+                       'the documented random constructors. This is the structural content of C17 (no argument '
+                       'mutation, no hidden state); it does not execute anything, so "equal outputs on repeated '
+                       'calls" is decided only as absence of hidden state.')
+    run.assume('numpy functions not listed as allocating fresh storage may return a view/alias of their array arguments',
+               'callbacks passed to binop/_op2/unop are the lambdas visible at the call sites (analysed)',
+               'no ctypes/buffer-protocol tricks; unknown (unresolved) callees do not mutate their arguments')
+    run.trust(*STATIC_TRUST)
+
+
+CHECKS['C17'] = c17
